@@ -419,3 +419,32 @@ CASES += [
          new="""                let my_cutset = intersect.minus(ancestor_cutset);
                 let new_ancestor_cutset = my_cutset.clone();"""),
 ]
+
+CASES += [
+    dict(name="sa-dispatch-swapped", file=SB, rule="SA", props=["C03"], expect="SA2:and_prime_desc",
+         old="""            self.and_prime_desc(b, a)""", new="""            self.and_prime_desc(a, b)"""),
+    dict(name="sa-base-case-wrong", file=SB, rule="SA", props=["C03"], expect="SA1",
+         old="""            (a, b) if self.eq(a, b.neg()) => return SddPtr::false_ptr(),""",
+         new="""            (a, b) if self.eq(a, b.neg()) => return a,"""),
+    dict(name="sa-normalise-inverted", file=SB, rule="SA", props=["C03"], expect="SA2:normalise",
+         old="""                .is_prime_index(self.vtree_index(a), self.vtree_index(b))
+        {
+            (a, b)
+        } else {
+            (b, a)
+        };""",
+         new="""                .is_prime_index(self.vtree_index(a), self.vtree_index(b))
+        {
+            (b, a)
+        } else {
+            (a, b)
+        };"""),
+    dict(name="vx-lca-without-mapping", file="src/repr/vtree.rs", rule="VX", props=["C03", "C14"], expect="VTreeManager::lca",
+         old="""        let bfs_r = self.dfs_to_bfs[r.0];
+        let bfs_idx = self.lca.lca(bfs_l, bfs_r);""",
+         new="""        let bfs_r = self.dfs_to_bfs[r.0];
+        let bfs_idx = self.lca.lca(bfs_l, r.0);
+        let _ = bfs_r;"""),
+    dict(name="vx-prime-order-reversed", file="src/repr/vtree.rs", rule="VX", props=["C03", "C14"], expect="is_prime_index:order",
+         old="""        l.0 < r.0""", new="""        l.0 > r.0"""),
+]
